@@ -145,11 +145,19 @@ class Run(object):
                     break
                 if circuit_ref and circuit_ref[0] == i:
                     n = circuit_ref[1]
-                    sim.event('CIRC 7 BUILT %s~%s BUILD_FLAGS=NEED_CAPACITY PURPOSE=GENERAL' % (C.id_hex(n), POOL[n][0]))
+                    sep = circuit_ref[2] if len(circuit_ref) > 2 else '~'        # LongName: $hex~nick, or $hex=nick for a Named relay
+                    sim.event('CIRC 7 BUILT %s%s%s BUILD_FLAGS=NEED_CAPACITY PURPOSE=GENERAL' % (C.id_hex(n), sep, POOL[n][0]))
                     sim.pump()
                     self.log.append('CIRC 7 BUILT via %s' % C.id_hex(n))
                     try:
-                        objs[C.id_hex(n)] = st.circuits[7].path[0]
+                        hop = st.circuits[7].path[0]
+                        known = objs.get(C.id_hex(n))
+                        if known is None:
+                            objs[C.id_hex(n)] = hop
+                        elif hop is not known:
+                            self.viol.append(('lookup-by-identity', 'circuit-hop-is-not-the-known-relay/%s' % ('tilde' if sep == '~' else 'equals'),
+                                              'relay %s of the current document was named %s%s%s in a circuit path: the hop is another object (%r:%r)'
+                                              % (C.id_hex(n), C.id_hex(n), sep, POOL[n][0], getattr(hop, 'ip', None), getattr(hop, 'flags', None))))
                     except Exception:
                         pass
                 rl = materialise(d)
@@ -336,6 +344,11 @@ def run_task(param, acc):
     rec_run(acc, ('chain2m', doc_key(d0), label1), r, dict(fam='chain', docs=[ser(d0), ser(d1)], circ=None, mid=True), cost=3)
     r = Run([d0, d1])
     rec_run(acc, ('chain2', doc_key(d0), label1), r, dict(fam='chain', docs=[ser(d0), ser(d1)], circ=None), cost=2)
+    # a relay of BOTH documents is named in a circuit path between them, in each LongName form: same object, same data after
+    for n_ in sorted(set(d0) & set(d1))[:1]:
+        for sep in ('~', '='):
+            r = Run([d0, d1], circuit_ref=(1, n_, sep))
+            rec_run(acc, ('chain2k', doc_key(d0), label1, sep), r, dict(fam='chain', docs=[ser(d0), ser(d1)], circ=[1, n_, sep]), cost=3)
     # the relay first seen in a circuit path joins later
     if 15 in d1 and 15 not in d0:
         r = Run([d0, d1], circuit_ref=(1, 15))
